@@ -6,8 +6,9 @@
 //!
 //! Op lines (family tag `cl`, mirrored by lean/JrpcVerif/Driver/ClientFamily.lean):
 //!   cl call [<method hex> [<params hex>]] | cl subscribe | cl batch <n> | cl regnotif <method hex>
-//!   | cl notify | cl abandon <op> | cl deliver <text hex> | cl next <op> | cl drop <op>
-//!   | cl unsub <op> | cl gate open|shut | cl sizes
+//!   | cl notify | cl abandon <op> | cl deliver <text hex> [for=<op>] [bin] | cl next <op> | cl drop <op>
+//!   | cl unsub <op> | cl gate open|shut | cl sizes | cl subscribe <u64|str|bool|pt|optu64>  (typed stream)
+//! `bin`: the message arrives as a binary frame (`ReceivedMessage::Bytes`); only then may the hex be other than UTF-8.
 //! Front-end operations are numbered 0,1,2,… in script order (`op` = ticket).
 use crate::common::*;
 use crate::typed_batch_on;
@@ -138,6 +139,8 @@ impl Comp {
 #[derive(Debug, Clone, PartialEq)]
 pub enum NextRes {
 	Item(String),
+	/// a typed stream yielded `Some(Err(_))`: the payload is not a value of the stream's item type
+	Bad,
 	Pending,
 	End { lagged: bool },
 }
@@ -173,6 +176,7 @@ impl Obs {
 		parts.extend(cs.iter().map(|(k, c)| format!("t{k}={}", c.render())));
 		match &self.next {
 			Some(NextRes::Item(p)) => parts.push(format!("item:{}", hexs(p))),
+			Some(NextRes::Bad) => parts.push("item:bad".into()),
 			Some(NextRes::Pending) => parts.push("pending".into()),
 			Some(NextRes::End { lagged }) => parts.push(if *lagged { "end:lagged".into() } else { "end:closed".into() }),
 			None => {}
@@ -182,7 +186,56 @@ impl Obs {
 }
 
 type Raw = Box<RawValue>;
-type Stream = Subscription<Raw>;
+
+/// a subscription stream of any of the item types the harness instantiates (`Raw` for `cl subscribe` without a type)
+pub enum Stream {
+	Raw(Subscription<Raw>),
+	U64(Subscription<u64>),
+	Str(Subscription<String>),
+	Bool(Subscription<bool>),
+	Pt(Subscription<Pt>),
+	OptU64(Subscription<Option<u64>>),
+}
+
+macro_rules! on_stream {
+	($s:expr, $x:ident => $e:expr) => {
+		match $s {
+			Stream::Raw($x) => $e,
+			Stream::U64($x) => $e,
+			Stream::Str($x) => $e,
+			Stream::Bool($x) => $e,
+			Stream::Pt($x) => $e,
+			Stream::OptU64($x) => $e,
+		}
+	};
+}
+
+impl Stream {
+	fn next_now(&mut self) -> Option<Option<Result<String, ()>>> {
+		match self {
+			Stream::Raw(s) => s.next().now_or_never().map(|o| o.map(|r| r.map(|v| v.get().to_string()).map_err(|_| ()))),
+			Stream::U64(s) => s.next().now_or_never().map(|o| o.map(|r| r.map(|v| v.show()).map_err(|_| ()))),
+			Stream::Str(s) => s.next().now_or_never().map(|o| o.map(|r| r.map(|v| v.show()).map_err(|_| ()))),
+			Stream::Bool(s) => s.next().now_or_never().map(|o| o.map(|r| r.map(|v| v.show()).map_err(|_| ()))),
+			Stream::Pt(s) => s.next().now_or_never().map(|o| o.map(|r| r.map(|v| v.show()).map_err(|_| ()))),
+			Stream::OptU64(s) => s.next().now_or_never().map(|o| o.map(|r| r.map(|v| v.show()).map_err(|_| ()))),
+		}
+	}
+	fn close_reason(&self) -> Option<SubscriptionCloseReason> {
+		on_stream!(self, s => s.close_reason())
+	}
+	fn sub_id(&self) -> String {
+		on_stream!(self, s => match s.kind() {
+			jsonrpsee_core::client::SubscriptionKind::Subscription(id) => sub_id_repr(id),
+			_ => "?".into(),
+		})
+	}
+	async fn unsubscribe(self) {
+		on_stream!(self, s => {
+			let _ = s.unsubscribe().await;
+		})
+	}
+}
 
 enum Slot {
 	Call(JoinHandle<Result<Raw, Error>>),
@@ -374,10 +427,7 @@ impl Session {
 				},
 				Slot::Subscribe(h) => match h.await {
 					Ok(Ok(s)) => {
-						let id = match s.kind() {
-							jsonrpsee_core::client::SubscriptionKind::Subscription(id) => sub_id_repr(id),
-							_ => "?".into(),
-						};
+						let id = s.sub_id();
 						out.push((i, Comp::Sub(id)));
 						self.slots[i] = Slot::Stream(s);
 					}
@@ -459,11 +509,26 @@ impl Session {
 				self.slots.push(Slot::Call(tokio::spawn(async move { c.request::<Raw, _>(&method, RawParams(params)).await })));
 				self.settle(&mut obs).await;
 			}
-			("subscribe", _) => {
+			("subscribe", rest) => {
 				let c = self.client.clone();
-				self.slots.push(Slot::Subscribe(tokio::spawn(async move {
-					c.subscribe::<Raw, _>("sub", ArrayParams::new(), "unsub").await
-				})));
+				macro_rules! sub {
+					($t:ty, $v:ident) => {
+						tokio::spawn(async move { c.subscribe::<$t, _>("sub", ArrayParams::new(), "unsub").await.map(Stream::$v) })
+					};
+				}
+				let h = match rest.first().copied() {
+					None => sub!(Raw, Raw),
+					Some("u64") => sub!(u64, U64),
+					Some("str") => sub!(String, Str),
+					Some("bool") => sub!(bool, Bool),
+					Some("pt") => sub!(Pt, Pt),
+					Some("optu64") => sub!(Option<u64>, OptU64),
+					Some(_) => {
+						obs.literal = Some("bad-op".into());
+						return obs;
+					}
+				};
+				self.slots.push(Slot::Subscribe(h));
 				self.settle(&mut obs).await;
 			}
 			("batch", [n]) => {
@@ -493,7 +558,7 @@ impl Session {
 			("regnotif", [m]) => {
 				let method = txt(m);
 				let c = self.client.clone();
-				self.slots.push(Slot::Reg(tokio::spawn(async move { c.subscribe_to_method::<Raw>(&method).await })));
+				self.slots.push(Slot::Reg(tokio::spawn(async move { c.subscribe_to_method::<Raw>(&method).await.map(Stream::Raw) })));
 				self.settle(&mut obs).await;
 			}
 			("notify", _) => {
@@ -520,8 +585,17 @@ impl Session {
 				obs.literal = Some(format!("connected {}", self.client.is_connected()));
 			}
 			// (an optional third word `for=<op>` names the operation the server made the reply for; it is for the oracles)
-			("deliver", [h, ..]) | ("deliverx", [h, ..]) => {
-				self.inject(Ok(ReceivedMessage::Text(txt(h))));
+			("deliver", [h, rest @ ..]) | ("deliverx", [h, rest @ ..]) => {
+				if rest.contains(&"bin") {
+					// a binary frame: the same handler, but the transport has not checked that it is UTF-8
+					self.inject(Ok(ReceivedMessage::Bytes(unhex(h))));
+				} else {
+					let Ok(t) = String::from_utf8(unhex(h)) else {
+						obs.literal = Some("bad-op".into());
+						return obs;
+					};
+					self.inject(Ok(ReceivedMessage::Text(t)));
+				}
 				self.settle(&mut obs).await;
 				if obs.fatal.is_some() {
 					// what the pending futures resolve with afterwards belongs to C09
@@ -533,9 +607,9 @@ impl Session {
 				let k: usize = k.parse().unwrap();
 				let r = match self.slots.get_mut(k) {
 					Some(Slot::Stream(s)) => {
-						let r = match s.next().now_or_never() {
-							Some(Some(Ok(v))) => NextRes::Item(v.get().to_string()),
-							Some(Some(Err(e))) => NextRes::Item(format!("<decode error {e}>")),
+						let r = match s.next_now() {
+							Some(Some(Ok(v))) => NextRes::Item(v),
+							Some(Some(Err(()))) => NextRes::Bad,
 							Some(None) => NextRes::End { lagged: matches!(s.close_reason(), Some(SubscriptionCloseReason::Lagged)) },
 							None => NextRes::Pending,
 						};
@@ -577,7 +651,7 @@ impl Session {
 				match std::mem::replace(self.slots.get_mut(k).unwrap_or(&mut Slot::Done), Slot::Done) {
 					Slot::Stream(s) => {
 						self.slots[k] = Slot::Unsubscribing(tokio::spawn(async move {
-							let _ = s.unsubscribe().await;
+							s.unsubscribe().await;
 						}));
 					}
 					_ => {
